@@ -126,14 +126,39 @@ def ht_closer_units(order, kind, f, tier):
             "C17.closer.inv-A-preserved-at-an-arbitrary-bit", "C17.closer.inv-B-preserved-at-an-arbitrary-slot", "C17.closer.inv-C-preserved-at-an-arbitrary-pair",
             "C17.closer.every-entry-keeps-its-key-and-value", "C17.closer.no-entry-appears"]
     for i, tag in enumerate(tags):
-        unit("ht.closer.%s.o%d.f%d.%d" % (kind, order, f, i + 1), ["C17"], "units/ht.c", entry="h_ht_closer", tier=tier, solver="cadical", unwind=64, kind="proof",
+        unit("ht.closer.%s.o%d.f%d.%d" % (kind, order, f, i + 1), ["C17"], "units/ht.c", entry="h_ht_closer", tier=tier, solver="cadical", unwind=129, kind="proof",
              defines=["HT_ORDER=%d" % order, "HT_KIND=%d" % HT_KINDS[kind], "HT_F=%d" % f, "HT_ONLY=%d" % (i + 1)], shared_tags=True,
              bound="table order %d, free position %d (rotation symmetry: one position stands for all - assumption)" % (order, f),
              functions=["find_closer_entry_<name> (order %d, %s keys)" % (order, kind)], expect_tags=[tag], timeout=2400, mem_gb=20,
              assumes=["window-based invariant with ghost indices (universal generalisation)", "uninterpreted hash", "rotation symmetry of the table for the choice of the free position"])
 
 
+def ht_putd_units(order, kind, c, tier):
+    fx = ["C17.closer.fx.no-candidate-changes-nothing", "C17.closer.fx.gives-up-only-when-no-entry-can-move", "C17.closer.fx.moved-entry-lies-between-its-home-and-the-hole",
+          "C17.closer.fx.bitmap-bit-moves-with-the-entry", "C17.closer.fx.hole-receives-the-entry", "C17.closer.fx.nothing-else-changes"]
+    unit("ht.closer.fx.%s.o%d" % (kind, order), ["C17"], "units/ht.c", entry="h_ht_closer_fx", tier=tier, solver="cadical", unwind=129, kind="proof",
+         defines=["HT_ORDER=%d" % order, "HT_KIND=%d" % HT_KINDS[kind], "HT_F=5"], shared_tags=True, expect_tags=fx, timeout=900, mem_gb=20,
+         bound="table order %d, free position 5 (rotation symmetry), every table content" % order,
+         functions=["find_closer_entry_<name> (order %d, %s keys): exact functional effect" % (order, kind)],
+         assumes=["rotation symmetry of the table for the choice of the free position"])
+    tags = ["C17.putd.refused-only-when-no-slot-in-reach-can-be-freed", "C17.putd.new-binding-is-reachable-from-its-home", "C17.putd.inv-A-at-an-arbitrary-bit",
+            "C17.putd.inv-B-at-an-arbitrary-slot", "C17.putd.inv-C-at-an-arbitrary-pair", "C17.putd.every-other-binding-survives-with-its-value",
+            "C17.putd.no-binding-appears", "C17.putd.reports-previous-value"]
+    for moves in (1, 2):
+        for i, tag in enumerate(tags):
+            unit("ht.putd.%s.o%d.c%d.m%d.%d" % (kind, order, c, moves, i + 1), ["C17"], "units/ht.c", entry="h_ht_putd", tier=tier, solver="cadical", unwind=129, kind="bounded",
+                 cbmc_unwindset=["hashtable_put_VT.0:34", "hashtable_put_VT.1:66", "hashtable_put_VT.2:%d" % (moves + 2)], best_effort=(moves == 2),
+                 defines=["HT_ORDER=%d" % order, "HT_KIND=%d" % HT_KINDS[kind], "HT_PIN_HOME=%d" % c, "HT_STUB_CLOSER=1", "HT_MAXMOVES=%d" % moves, "HT_ONLY=%d" % (i + 1)], shared_tags=True,
+                 bound="table order %d, home %d (rotation symmetry), at most %d displacement step(s) per insertion" % (order, c, moves),
+                 functions=["hashtable_put_<name> (order %d, %s keys) incl. the displacement loop; find_closer_entry replaced by its contract (ht.closer.fx)" % (order, kind)],
+                 expect_tags=[tag], timeout=1500, mem_gb=20,
+                 assumes=["find_closer_entry replaced by its functional contract (any movable candidate), proved by ht.closer.fx", "hash = arbitrary table over the occurring keys (pairwise consistent), home of the inserted key pinned",
+                          "Inv assumed as instances (all A; B and C over the add range and ghost slots), re-established at arbitrary ghost indices",
+                          "rotation symmetry of the table for the choice of the home position"])
+
+
 ht_closer_units(7, "u32", 5, "thorough")
+ht_putd_units(7, "u32", 100, "thorough")
 ht_units(2, "u32", "quick")
 ht_units(3, "u32", "quick")
 
@@ -176,10 +201,42 @@ unit("ws.send", ["C12", "C10", "C06"], "units/ws.c", entry="h_ws_send", function
 # with permessage-deflate not negotiated the decompression helpers must be unreachable: assert(false) bodies
 WS_NO_DEFLATE = ["--remove-function-body", "private_decompress", "--remove-function-body", "reassemble", "--remove-function-body", "websocket_compress",
                  "--generate-function-body", "private_decompress|reassemble|websocket_compress", "--generate-function-body-options", "assert-false-assume-false"]
+EXT_COMMON = dict(WS_COMMON, goto_instrument_args=["--remove-function-body", "alloc_compression", "--value-set-fi-fp-removal"], flags=[])
+unit("ext.offer.short", ["C19", "C06"], "units/ws.c", entry="h_ext_offer", functions=["check_websocket_extensions", "fill_requested_extension", "write_to_response"], kind="bounded",
+     bound="one extension offer (no comma) of 26 bytes, every content (shorter offers: padded with white space)", expect_tags=["C19.ext.response-fits-its-buffer"], timeout=900, tier="thorough", best_effort=True,
+     **dict(EXT_COMMON, unwind=28, defines=["NO_GZIP", "EXT_MAX=26", "EXT_SINGLE=1"]), allow_no_body=["alloc_compression"],
+     assumes=["alloc_compression (zlib deflateInit/inflateInit) cut off", "isspace: C-locale model", "realloc: cbmc model (may not fail)"])
 unit("ext.offer", ["C19", "C06"], "units/ws.c", entry="h_ext_offer", functions=["check_websocket_extensions", "fill_requested_extension", "write_to_response"], kind="bounded",
      bound="Sec-WebSocket-Extensions values of <= 48 bytes, every content", expect_tags=["C19.ext.response-fits-its-buffer"], timeout=900, tier="thorough", best_effort=True,
-     **dict(WS_COMMON, unwind=50, goto_instrument_args=["--remove-function-body", "alloc_compression", "--value-set-fi-fp-removal"], flags=[]), allow_no_body=["alloc_compression"],
+     **dict(EXT_COMMON, unwind=50), allow_no_body=["alloc_compression"],
      assumes=["alloc_compression (zlib deflateInit/inflateInit) cut off", "isspace: C-locale model", "realloc: cbmc model (may not fail)"])
+COMP_ASSUME = ["zlib (src/zlib: inflate, deflate, *Init2_, *End) replaced by assumed contracts that check the windows cjet hands over (stubs/zlib_ghost.h)",
+               "memcpy/memmove: byte-loop models", "malloc/realloc never fail (the OOM paths are not covered)"]
+def comp_frames_unit(l1, lo, hi, tier):
+    unit("comp.frames.first%d.second%d-%d" % (l1, lo, hi), ["C19", "C06"], "units/u_comp.c", entry="h_comp_frames", kind="bounded", tier=tier,
+         bound="2 or 3 fragments of %d, %d..%d and <= 3 bytes (every combination as its own constant-size path), text and binary, <= 3 inflate calls per message, every byte value" % (l1, lo, hi),
+         functions=["binary_frame_received_comp", "text_frame_received_comp", "reassemble", "private_decompress", "read_int_from_array", "write_int_to_array"],
+         includes=["{REPO}/src/zlib"], defines=["NO_GZIP", "COMP_L1MIN=%d" % l1, "COMP_L1=%d" % l1, "COMP_L2MIN=%d" % lo, "COMP_L2=%d" % hi], unwind=66, solver="cadical",
+         flags=["--memory-leak-check", "--slice-formula"], timeout=900, mem_gb=16, shared_tags=True, replay={"c": "replay/comp_replay.c", "extract": "comp_extract", "link": ["src/compression.c", "src/zlib/*.c"], "libs": ["-I", "{REPO}/src/zlib"]}, 
+         expect_tags=["C19.reassemble.buffer-accounting-matches-the-allocation", "C19.reassemble.inflate-gets-the-fragments-concatenated-in-order", "C19.decompress.application-gets-exactly-the-inflated-bytes"],
+         assumes=COMP_ASSUME + ["realloc: model that copies byte by byte (small objects) / by array primitive, and requires the caller to double (as compression.c does)"])
+
+
+for _l1 in range(4):
+    comp_frames_unit(_l1, 0, 8, "quick")
+    comp_frames_unit(_l1, 9, 17, "thorough")
+    comp_frames_unit(_l1, 18, 26, "thorough")
+comp_frames_unit(3, 19, 23, "quick")   # the smallest fragment pair for which ONE doubling of the reassembly buffer is not enough is (3, 20)
+unit("comp.message", ["C19", "C06"], "units/u_comp.c", entry="h_comp_message", kind="bounded", bound="compressed payload of <= 6 bytes, <= 3 inflate calls, every byte value",
+     functions=["binary_received_comp", "text_received_comp", "private_decompress"],
+     includes=["{REPO}/src/zlib"], defines=["NO_GZIP", "COMP_L=6"], unwind=66, solver="cadical", flags=["--memory-leak-check", "--slice-formula"], timeout=600, shared_tags=True, replay={"c": "replay/comp_replay.c", "extract": "comp_extract", "link": ["src/compression.c", "src/zlib/*.c"], "libs": ["-I", "{REPO}/src/zlib"]}, 
+     expect_tags=["C19.decompress.inflate-gets-the-payload-unchanged", "C19.decompress.application-gets-exactly-the-inflated-bytes"], assumes=COMP_ASSUME)
+unit("comp.sendframe", ["C19", "C10", "C12", "C06"], "units/ws.c", entry="h_comp_sendframe", kind="bounded", bound="messages of <= 8 bytes, every compressed size zlib may produce for them",
+     functions=["send_frame", "websocket_compress"], expect_tags=["C19.send.frame-carries-the-complete-block-without-its-tail", "C19.send.incomplete-or-failed-compression-sends-nothing"],
+     timeout=600, shared_tags=True, replay={"c": "replay/comp_replay.c", "extract": "comp_extract", "link": ["src/compression.c", "src/zlib/*.c"], "libs": ["-I", "{REPO}/src/zlib"]}, **dict(WS_COMMON, defines=["NO_GZIP", "COMP_L=8"], unwind=32, flags=["--memory-leak-check"]), assumes=COMP_ASSUME)
+unit("comp.sendframe.mid", ["C19", "C10", "C12", "C06"], "units/ws.c", entry="h_comp_sendframe", kind="bounded", bound="one message of 120 bytes, every compressed size from 5 to 152 bytes (both sides of the 126-byte header boundary)",
+     functions=["send_frame", "websocket_compress"], expect_tags=["C19.send.compressed-frame-sets-rsv1-and-the-compressed-length"],
+     timeout=600, shared_tags=True, **dict(WS_COMMON, defines=["NO_GZIP", "COMP_LEN_FIXED=120"], unwind=32, flags=["--memory-leak-check"]), assumes=COMP_ASSUME)
 for _d in (1, 0):
     unit("ws.frame.%s" % ("daemon-callbacks" if _d else "any-callbacks"), ["C12", "C06"], "units/ws.c", entry="h_ws_frame",
          functions=["ws_handle_frame", "is_status_code_invalid", "handle_error", "websocket_close", "websocket_send_pong_frame", "websocket_send_close_frame",
@@ -311,8 +368,8 @@ RT_COMMON = dict(cfg="rt2", unwind=8, cbmc_unwindset=CJ_UNWIND + ["cj_name_eq_no
 for _h, _props, _fns, _tags in (
         ("reply", ["C03", "C07", "C06"], ["handle_routing_response", "format_and_send_response", "create_result_response"], ["C03.reply.caller-gets-exactly-one-answer-with-its-id-and-the-owners-payload", "C03.reply.other-requests-untouched"]),
         ("timeout", ["C14", "C03", "C07", "C06"], ["request_timeout_handler", "create_error_response"], ["C14.timeout.caller-gets-exactly-one-timeout-error-with-its-id"]),
-        ("ownerdown", ["C03", "C05", "C07", "C06"], ["remove_routing_info_from_peer", "clear_routing_entry", "send_shutdown_response"], ["C03.ownerdown.each-caller-with-an-id-gets-exactly-one-shutdown-error", "C03.ownerdown.table-empty-afterwards"]),
-        ("bystander", ["C03", "C05", "C07", "C06"], ["remove_peer_from_routing_table", "clear_routing_entry"], ["C03.bystander.requests-of-other-callers-are-untouched"]),
+        ("ownerdown", ["C03", "C17", "C14", "C05", "C07", "C06"], ["remove_routing_info_from_peer", "clear_routing_entry", "send_shutdown_response"], ["C03.ownerdown.each-caller-with-an-id-gets-exactly-one-shutdown-error", "C03.ownerdown.table-empty-afterwards"]),
+        ("bystander", ["C03", "C17", "C14", "C05", "C07", "C06"], ["remove_peer_from_routing_table", "clear_routing_entry"], ["C03.bystander.requests-of-other-callers-are-untouched"]),
         ("alloc", ["C03", "C06"], ["alloc_routing_request", "fill_routed_request_id", "calculate_size_for_routed_request_id"], ["C03.alloc.consecutive-requests-get-different-counter-values"]),
         ("setup", ["C03", "C14", "C07", "C06"], ["setup_routing_information"], ["C03.setup.refused-request-is-not-registered", "C14.setup.deadline-is-the-requests-timeout-else-the-elements"])):
     for _sh, _nm in (((1, "c1"), (2, "c1c1"), (2 | 8, "c1c2")) if _h not in ("setup", "alloc") else (((0, "empty"), (1, "c1")) if _h == "setup" else ((0, "empty"),))):
@@ -458,7 +515,7 @@ unit("alloc.acct", ["C07", "C15", "C06"], "units/u_alloc.c", entry="h_alloc_acct
      assumes=["request sizes <= 2^32 bytes, nmemb <= 2^16 (derived from the call sites)"])
 
 unit("loop.batch", ["C14", "C09", "C11", "C06"], "units/u_loop.c", entry="h_loop_batch", functions=["handle_events", "eventloop_epoll_remove"], unwind=5, solver="cadical",
-     kind="proof", bound="batches of <= 3 events over 3 registered io_events (CONFIG_MAX_EPOLL_EVENTS is 10)",
+     kind="proof", bound="batches of <= 3 events over 3 registered io_events (CONFIG_MAX_EPOLL_EVENTS is 10)", shared_tags=True,
      expect_tags=["C14.batch.dispatched-event-is-still-registered", "C09.batch.every-readable-event-of-the-batch-is-read-once"], timeout=300,
      replay={"c": "replay/loop_replay.c", "extract": "loop_extract"},
      assumes=["callbacks: any callback may deregister any subset of the registered events, returns EL_EVENT_REMOVED iff it removed its own"])
@@ -584,7 +641,17 @@ PROPERTY_META["C15"] = {
     "explanation": "C15: the harness contracts of the listed units with every allocation (malloc/calloc and every cJSON creator / key copy) allowed to fail independently; cbmc --memory-leak-check and the model's live-node counter as oracles.",
     "not_decided": ["element/fetch/router handlers under allocation failure (quick tier)", "heap-cap induced failures at daemon level"],
 }
-NOT_APPLICABLE["C19"] = ("permessage-deflate round trip: the lossless-round-trip clause quantifies over zlib's inflate/deflate (vendored, ~10 kLOC of bit-level C), which no contract within reach of cbmc can express or decide; "
-                         "the remaining clauses (extension negotiation stays within the offered/allowed parameters, buffer arithmetic of reassembly) have a bounded unit (ext.offer, thorough tier, best effort) that does not finish reliably, "
-                         "so no claim is made for C19")
+PROPERTY_META["C19"] = {
+    "level": "other",
+    "level_text": ("Bounded but exhaustive-within-bound (not counted as proved): contract checks of the code cjet wraps around zlib (src/compression.c, send_frame in src/websocket.c) with inflate()/deflate() replaced by ghost stubs that state zlib's documented contract "
+                   "and CHECK every window cjet hands over: for fragmented messages (2-3 fragments of <= 3/26/3 bytes, every (len1,len2) pair as its own constant-size path) and unfragmented messages (<= 6 bytes) every byte "
+                   "cjet copies stays inside its allocation, the fragments reach inflate concatenated in order followed by 00 00 FF FF, the application gets exactly the inflated bytes once, corrupt streams are reported "
+                   "and never delivered, and every buffer is released on every path (cbmc memory-leak check); for outgoing messages (<= 8 bytes, every compressed size zlib may produce) a frame goes out only with the complete "
+                   "block minus its tail, RSV1 set and the compressed length, and a failed compression sends nothing. Extension negotiation (check_websocket_extensions) has a best-effort bounded unit in the thorough tier. " + HARNESS_NOTE),
+    "level_note": ("NOT decided: the lossless round trip itself and the memory safety of src/zlib (vendored inflate/deflate, ~10 kLOC of bit-level C) - they are the ASSUMED contract here (reads <= avail_in, writes <= avail_out, "
+                   "complete output of deflate with a flush is at most len + len/8 + len/64 + 16 bytes and ends in 00 00 FF FF); window-bits / context-takeover combinations only matter inside zlib; lengths are bounded as stated; "
+                   "malloc/realloc never fail in these units. Native replays against the real zlib exist for the defects found (replay/comp_replay.c)."),
+    "explanation": "C19: harness-enforced contracts on reassemble, private_decompress, the four *_received_comp entry points, websocket_compress and send_frame against a ghost zlib.",
+    "not_decided": ["zlib internals (inflate.c, deflate.c): round trip and memory safety", "negotiation (ext.offer is best effort, thorough tier)", "messages beyond the stated length bounds", "allocation failure paths"],
+}
 PENDING = {}
